@@ -42,6 +42,42 @@ theorem accessors_source {α : Type} (c : List α × List Attr) (k : List Nat ×
     C02B.idFaces c = List.range c.1.length ∧ C02B.idCells c = List.range c.1.length :=
   ⟨rfl, rfl, rfl, rfl, rfl, rfl, rfl, rfl, rfl⟩
 
+/-! ## element access, iteration, constructors, attribute lookup / creation, `+=` (round 7) -/
+
+/-- as written: `c[k]` reads row `k`, `c[k] = v` replaces it in place, iteration is over the rows in order; the constructors
+give empty containers unless rows / an attribute dict are handed over; `get_attribute` is the dict lookup (absent = the
+exception); `c += rows` appends the rows and expands every attribute by their number (also for `c += other_container`) -/
+theorem container_methods_source {α : Type} (c o : List α × List Attr) (k : Nat) (d v : α) (n : String) (l : List α)
+    (as : List Attr) :
+    C02B.dcGet c k d = c.1.getD k d ∧ C02B.dcSet c k v = (c.1.set k v, c.2) ∧ C02B.dcIter c = c.1 ∧
+    C02B.baseInit none = [] ∧ C02B.baseInit (some as) = as ∧ (C02B.dcInit none none : List α × List Attr) = ([], []) ∧
+    C02B.dcInit (some l) (some as) = (l, as) ∧ C02B.cornerInit none none = ([], []) ∧
+    C02B.dcGetAttribute c n = findAttr c.2 n ∧
+    C02B.dcIaddList c l = (c.1 ++ l, c.2.map (expandAttr l.length)) ∧
+    C02B.dcIaddCont c o = (c.1 ++ o.1, c.2.map (expandAttr o.1.length)) := by
+  refine ⟨rfl, rfl, rfl, rfl, rfl, rfl, rfl, rfl, ?_, rfl, rfl⟩
+  unfold C02B.dcGetAttribute
+  by_cases h : hasAttr c.2 n = true
+  · simp [h]
+  · have h' : hasAttr c.2 n = false := by simpa using h
+    simp only [h', Bool.not_false, if_true]
+    unfold findAttr
+    symm
+    rw [List.find?_eq_none]
+    intro a ha
+    unfold hasAttr at h'
+    have := List.any_eq_false.mp h' a ha
+    simpa using this
+
+/-- `create_attribute` as written, on a container that has no attribute of that name yet, is the vocabulary's
+`econtCreate` (the new attribute comes last; dense: one default slot per row present; `default_value` given) -/
+theorem create_attribute_source {α : Type} (c : List α × List Attr) (n : String) (dense : Bool) (v : Int)
+    (h : hasAttr c.2 n = false) :
+    C02B.dcCreateAttribute c n dense (some v) none =
+      (c.1, c.2 ++ [{ name := n, dflt := v, st := if dense then .dense (List.replicate c.1.length v) else .sparse [] }]) := by
+  unfold C02B.dcCreateAttribute
+  cases dense <;> simp [attrDictSet_fresh _ _ _ h]
+
 /-! ## `DataContainer.append(val)` -/
 
 /-- as written: the value is appended to `_data`, then every attribute is expanded by one slot -/
@@ -101,6 +137,14 @@ theorem complete_edges_face (n : Nat) (x : Raw × List (Int × Int)) (f : List N
   rw [List.foldl_map]
   exact foldl_congr' _ _ (fun a i => complete_edges_step n f a i) _ _
 
+/-- `create_attribute("hard_edges", bool)` as translated, on a container that has no such attribute: one sparse attribute
+without keys, default `False`, comes last -/
+theorem create_flag_source (s : Raw) (n : String) (h : hasAttr s.eattrs n = false) :
+    { s with edges := (C02B.dcCreateAttribute (s.edges, s.eattrs) n false none none).1,
+             eattrs := (C02B.dcCreateAttribute (s.edges, s.eattrs) n false none none).2 } = createFlagAttr s n := by
+  unfold C02B.dcCreateAttribute createFlagAttr
+  simp [attrDictSet_fresh _ _ _ h]
+
 theorem complete_edges_flags (s : Raw) (h : hasAttr s.eattrs hardName = false) :
     (List.range s.edges.length).foldl (C02B.completeEdges_loop1 hardName) (createFlagAttr s hardName)
       = { s with eattrs := s.eattrs ++ [hardAttr s.edges.length] } :=
@@ -139,10 +183,12 @@ theorem complete_edges_bridge (s : Raw) : C02B.completeEdges s = completeEdges s
     · have ha' : hasAttr s.eattrs hardName = false := by simpa [hardName] using ha
       have hb : hasAttr s.eattrs "hard_edges" = false := ha'
       simp only [hb, Bool.not_false, if_true, ha', Bool.false_eq_true, if_false]
+      simp only [create_flag_source s "hard_edges" hb]
       have hf := complete_edges_flags s ha'
       simp only [hardName] at hf
       have hlen : (createFlagAttr s "hard_edges").edges.length = s.edges.length := rfl
-      simp only [C02B.idEdges, C02B.dcLen, hlen, hf]
+      have hlen' : (C02B.dcCreateAttribute (s.edges, s.eattrs) "hard_edges" false none none).1.length = s.edges.length := rfl
+      simp only [C02B.idEdges, C02B.dcLen, hlen, hlen', hf]
       exact key { s with eattrs := s.eattrs ++ [hardAttr s.edges.length] } rfl rfl rfl
 
 /-! ## `_prepare_vertices` -/
@@ -155,9 +201,11 @@ def vertexStep (v : VRow) : VRow :=
 
 theorem prepare_vertices_step (s : VState) (i : Nat) :
     (C02B.prepareVertices_loop1 s i).verts = s.verts.set i (vertexStep (s.verts.getD i default)) := by
-  show _ = s.verts.set i (vertexStep (vget s.verts i))
   unfold C02B.prepareVertices_loop1
-  generalize vget s.verts i = v
+  have hE : s.verts.getD i default = C02B.dcGet (s.verts, ([] : List Attr)) i default := rfl
+  rw [hE]
+  generalize C02B.dcGet (s.verts, ([] : List Attr)) i default = v
+  simp only [C02B.dcSet]
   unfold vertexStep
   simp only [vecOf, VRow.ndim, VRow.size, npPad, astypeFloat, kindIn]
   by_cases h3 : v.xs.length < 3 <;> simp [h3] <;>
@@ -244,6 +292,7 @@ theorem face_corners_loop (s : Raw) (a b : List Nat) (i : Nat) (row : List Nat) 
 `face_corners.append(v, iF)` per face vertex in element order) is the model's `genFaceCorners` -/
 theorem gen_face_corners_bridge (s : Raw) : C02B.genFaceCorners s = genFaceCorners s := by
   unfold C02B.genFaceCorners genFaceCorners
+  simp only [C02B.dcIter]
   by_cases h : s.fcElem.length = 0 ∨ s.fcElem.length ≠ (s.faces.map List.length).sum
   · rw [if_pos h, if_pos (by simp only [Bool.or_eq_true, Bool.and_eq_true, decide_eq_true_eq, Bool.not_eq_true', decide_eq_false_iff_not, gt_iff_lt] <;> omega)]
     have := owners_enum_fold C02B.genFaceCorners_loop1 (fun s a b => { s with fcElem := a, fcAdj := b })
@@ -283,6 +332,7 @@ theorem cell_corners_adj_only (rows : List (List Nat)) (i : Nat) (s : Raw) (a : 
 branch that extends `_elem`, the resets, one `cell_corners.append(v, iC)` per cell vertex) is the model's `genCellCorners` -/
 theorem gen_cell_corners_bridge (s : Raw) : C02B.genCellCorners s = genCellCorners s := by
   unfold C02B.genCellCorners genCellCorners
+  simp only [C02B.dcIter]
   by_cases h : s.ccElem.length = 0 ∨ s.ccAdj.length = 0 ∨ s.ccElem.length ≠ (s.cells.map List.length).sum
       ∨ s.ccAdj.length ≠ (s.cells.map List.length).sum
   · rw [if_pos h, if_pos (by simp only [Bool.or_eq_true, Bool.and_eq_true, decide_eq_true_eq, Bool.not_eq_true', decide_eq_false_iff_not, gt_iff_lt] <;> omega)]
@@ -366,7 +416,8 @@ theorem prepare_faces_bridge (x : RawR) : C02B.prepareFaces x = prepareFacesR x 
     simp
   · intro s i
     -- by cases on the container type of the row (tolerant of `if not isinstance(..): continue` spellings)
-    unfold C02B.prepareFaces_loop1 rowGet
+    unfold C02B.prepareFaces_loop1
+    simp only [C02B.dcGet, C02B.dcSet]
     have hs := set_getD_self s.faces i (.list [])
     rcases hr : s.faces.getD i (.list []) with v | v | v <;> rw [hr] at hs <;>
       simp [Row.isNumpy, Row.tolist, Row.unNumpy, Row.val, hs]
@@ -381,7 +432,8 @@ theorem prepare_cells_bridge (x : RawR) : C02B.prepareCells x = prepareCellsR x 
     simp
   · intro s i
     -- by cases on the container type of the row (tolerant of `if not isinstance(..): continue` spellings)
-    unfold C02B.prepareCells_loop1 rowGet
+    unfold C02B.prepareCells_loop1
+    simp only [C02B.dcGet, C02B.dcSet]
     have hs := set_getD_self s.cells i (.list [])
     rcases hr : s.cells.getD i (.list []) with v | v | v <;> rw [hr] at hs <;>
       simp [Row.isNumpy, Row.tolist, Row.unNumpy, Row.val, hs]
@@ -448,7 +500,9 @@ theorem prepare_edges_rebuild_step (s : Raw) (v7 : List String) (c : ECont) (n i
       = (s, rebuildStep s.verts.length s.eattrs s.edges (c, n) i) := by
   unfold C02B.prepareEdges_loop2 rebuildStep
   simp only [prepare_edges_copy, data_append_source]
-  generalize edgeGet s.edges i = e
+  have hE : s.edges.getD i (0, 0) = C02B.dcGet (s.edges, s.eattrs) i (0, 0) := rfl
+  rw [hE]
+  generalize C02B.dcGet (s.edges, s.eattrs) i (0, 0) = e
   by_cases hv : validE s.verts.length e = true
   · have hv2 := (validE_iff s.verts.length e).mp hv
     rw [if_pos (by simp <;> omega), if_pos hv]
@@ -490,8 +544,8 @@ theorem prepare_edges_refines (s : Raw) (h : UniqueNames s.eattrs) : C02B.prepar
   · rw [if_pos hi, if_pos hi]
     rw [prepare_edges_create s.eattrs]
     simp only [List.nil_append]
-    rw [create_fold s.eattrs h s.eattrs (fun _ ha => ha) []]
-    simp only [List.nil_append]
+    rw [show (C02B.dcInit none none : ECont) = ([], ([] : List Attr).map emptyLike) from rfl, create_fold s.eattrs h [] s.eattrs rfl]
+    try simp only [List.nil_append]
     rw [foldl_fst_const (C02B.prepareEdges_loop2 s.verts.length (s.eattrs.map (·.name)) (s.eattrs.map (·.name)))
       (rebuildStep s.verts.length s.eattrs s.edges) s (fun t i => prepare_edges_rebuild_step s _ t.1 t.2 i)]
     simp only
